@@ -1,8 +1,11 @@
 """
 C20 — the shipped date-time format constraints judge the instant, not its notation.
 
-Proof: Properties/C20.lean (pytz table 1996-2037 = EU rule; verdict is a function of the instant; 931 = zero offset; hour grid).
-Tie: T1 pytz transition table, T3 FcEvaluator.evaluate_931..935 and format_constraint_evaluation("[93x]") with the context variable set.
+Proof: Properties/C20.lean (pytz table 1996-2037 = EU rule; verdict is a function of the instant; 931 = zero offset; hour grid),
+Properties/C20Eu.lean (the offset in force at EVERY second 1996-2037 is the EU rule's; closed form of the verdicts),
+Properties/C20Iso.lean (string level: parse_as_datetime on the extended ISO-8601 family modelled; every writing of a valid datetime is read back;
+two writings of one instant get one verdict; out-of-range fields are unfulfilled with a message).
+Tie: T1 pytz transition table, T3 `iso` (parse_as_datetime + verdicts on strings, model decides from the string alone), T3 FcEvaluator.evaluate_931..935 and format_constraint_evaluation("[93x]") with the context variable set.
 Predicate on the implementation: verdict = independent integer arithmetic of the EU rule, for every notation of every instant.
 """
 from __future__ import annotations
@@ -15,7 +18,7 @@ from typing import Optional
 from .. import evalenv, extract
 from ..common import Ctx
 
-MODULES = ["Ahbicht.Properties.C20"]
+MODULES = ["Ahbicht.Properties.C20", "Ahbicht.Properties.C20Eu", "Ahbicht.Properties.C20Iso"]
 
 
 def days_from_civil(y, m, d):
@@ -95,6 +98,85 @@ BAD = ["", None, "2022-01-01T00:00:00", "garbage", "2022-01-01T00:00:00−01:00"
        "0001-01-01T00:00:00+00:00", "9999-12-31T23:59:59Z", "2022-01-01", "12:00:00+01:00", "Z", "2022-02-30T00:00:00Z", "２０２２-01-01T00:00:00Z",
        # characters that are special to string formatting, logging and regular expressions
        "{", "}", "{}", "{0}", "{foo}", "%s", "%(x)s", "%", "\\", "2022-01-01T00:00:00+01:00}", "{2022-01-01T00:00:00+01:00}", "$1", "\x00", "a" * 5000, " ", "\t\n"]
+
+SEPS = ["T", "T", "T", " ", "t", "x", "_", "\u00e9", "\u20ac", "\U0001F600", "-", ":", "+", "0", "\t", "z"]
+QUIRK_OFFSETS = ["+01:75", "+23:59:59", "-23:59:59", "+24:00", "-24:00", "+99:00", "-00:00", "+00:00:00", "-00:00:00", "+00:60", "+23:60", "+12:34:99", "+23:59:60",
+                 "+00:00:01", "-00:00:01", "Z", "+00:00", "+14:00", "-12:00", "+05:45", "+02:00", "+01:00"]
+
+
+def write_family(t: int, off: int, rng: random.Random) -> str:
+    """instant t written with offset off in the extended family: any separator, offset as Z / +-hh:mm / +-hh:mm:ss / -00:00"""
+    loc = t + off
+    y, m, d = civil_from_days(loc // 86400)
+    sod = loc % 86400
+    sign = "+" if off >= 0 else "-"
+    a = abs(off)
+    styles = ["long"] + (["short", "short"] if a % 60 == 0 else []) + (["zulu", "negzero"] if off == 0 else [])
+    st = rng.choice(styles)
+    o = {"long": f"{sign}{a // 3600:02d}:{a % 3600 // 60:02d}:{a % 60:02d}", "short": f"{sign}{a // 3600:02d}:{a % 3600 // 60:02d}", "zulu": "Z", "negzero": "-00:00"}[st]
+    return f"{y:04d}-{m:02d}-{d:02d}{rng.choice(SEPS)}{sod // 3600:02d}:{sod % 3600 // 60:02d}:{sod % 60:02d}{o}"
+
+
+def iso_stream(rng: random.Random, n: int):
+    """(string, kind, t, off): strings in and around the modelled family; t/off known for kind == 'valid'"""
+    t0, t1 = days_from_civil(1996, 1, 1) * 86400, days_from_civil(2038, 1, 1) * 86400
+    out = []
+    for _ in range(n):
+        kind = rng.choice(["valid"] * 5 + ["edge-year", "field", "field", "offset-quirk", "shape", "shape"])
+        r = rng.random()
+        if r < 0.4:  # close to a switch, on the hour grid
+            y = rng.randrange(1996, 2038)
+            t = last_sunday(y, rng.choice([3, 10])) * 86400 + 3600 + rng.randrange(-30, 10) * 3600
+        elif r < 0.7:
+            t = rng.randrange(t0 // 3600, t1 // 3600) * 3600
+        else:
+            t = rng.randrange(t0, t1)
+        ro = rng.random()
+        off = rng.choice(OFFSETS) if ro < 0.5 else (rng.randrange(-23, 24) * 3600 if ro < 0.7 else (rng.randrange(-1439, 1440) * 60 if ro < 0.85 else rng.randrange(-86399, 86400)))
+        if kind != "valid" and off > 0:
+            t = max(t, t0 + 86400)
+        s = write_family(t, off, rng)
+        if kind == "valid":
+            out.append((s, kind, t, off))
+            continue
+        if kind == "edge-year":
+            s = rng.choice(["0001", "0002", "9998", "9999", "1000", "1995", "2038", "2500", "1970", "1900", "0000"]) + s[4:]
+        elif kind == "field":
+            pos, vals = rng.choice([(5, ["00", "13", "02", "04", "12"]), (8, ["00", "29", "30", "31", "32"]), (11, ["24", "23", "25"]), (14, ["60", "59"]), (17, ["60", "61", "59"])])
+            s = s[:pos] + rng.choice(vals) + s[pos + 2:]
+            if rng.random() < 0.4:
+                s = s[:5] + rng.choice(["02", "04", "06", "09", "11"]) + s[7:]
+            if rng.random() < 0.3:
+                s = rng.choice(["2000", "1900", "2024", "2100", "2023"]) + s[4:]
+        elif kind == "offset-quirk":
+            s = s[:19] + rng.choice(QUIRK_OFFSETS)
+        else:
+            i = rng.randrange(len(s) + 1)
+            mut = rng.choice(["del", "ins", "letter", "arabic", "dot", "frac", "lowz", "sepZ", "dup", "noff", "trunc"])
+            if mut == "del" and i < len(s):
+                s = s[:i] + s[i + 1:]
+            elif mut == "ins":
+                s = s[:i] + rng.choice("0:-+TZ 9") + s[i:]
+            elif mut == "letter" and i < len(s):
+                s = s[:i] + rng.choice("aO:l-") + s[i + 1:]
+            elif mut == "arabic" and i < len(s) and s[i].isdigit():
+                s = s[:i] + chr(0x660 + int(s[i])) + s[i + 1:]
+            elif mut == "dot":
+                s = s.replace(":", ".", 1)
+            elif mut == "frac":
+                s = s[:19] + rng.choice([".5", ".000000", ",25"]) + s[19:]
+            elif mut == "lowz":
+                s = s[:19] + "z"
+            elif mut == "sepZ":
+                s = s[:10] + "Z" + s[11:]
+            elif mut == "dup":
+                s = s + s[19:]
+            elif mut == "noff":
+                s = s[:19]
+            else:
+                s = s[:i]
+        out.append((s, kind, None, None))
+    return out
 
 
 def run(ctx: Ctx) -> None:
@@ -213,6 +295,83 @@ def run(ctx: Ctx) -> None:
         ctx.case(("931-expr", s))
         if got != want:
             ctx.violation(f"[931] on '{s}': expected {want}, got {got}", {"input": s, "expected": want, "got": got}, key=f"931:{want}")
+    # ---- string level: the extended ISO-8601 family (Model/Iso.lean decides from the string alone) ----
+    import datetime as _dt
+    from ahbicht.content_evaluation.german_strom_and_gas_tag import parse_as_datetime
+    iso_cases = iso_stream(rng, 6000 if ctx.quick else 120000)
+    iso_rows = []
+    for s, kind, t, off in iso_cases:
+        ctx.case(("iso", s))
+        got = {}
+        msg_missing = None
+        for k, meth in methods.items():
+            try:
+                r = meth(s)
+                got[k] = bool(r.format_constraint_fulfilled)
+                if not got[k] and not r.error_message:
+                    msg_missing = k
+            except BaseException as e:  # pylint:disable=broad-except
+                got[k] = "raises:" + type(e).__name__
+        raised = [k for k, v in got.items() if isinstance(v, str)]
+        if raised:
+            ctx.violation(f"[{raised[0]}] {got[raised[0]]} on a string input", {"key": raised[0], "input": s,
+                          "python": f"from ahbicht.content_evaluation.fc_evaluators import FcEvaluator as F; F.evaluate_{raised[0]}(None, {s!r})"}, key=f"raise:{got[raised[0]]}")
+        if msg_missing:
+            ctx.violation("unfulfilled without error message", {"key": msg_missing, "input": s}, key=f"nomsg:{msg_missing}")
+        try:
+            ref = _dt.datetime.fromisoformat(s.replace("Z", "+00:00") if s.endswith("Z") else s)
+            ref = ref if ref.tzinfo is not None else None
+        except ValueError:
+            ref = None
+        if ref is None and any(v is True for v in got.values()):
+            k = next(k for k, v in got.items() if v is True)
+            ctx.violation(f"[{k}] reports a string that is not a datetime with offset as fulfilled", {"key": k, "input": s}, key=f"bad:{k}")
+        if kind == "valid":
+            want = expected(t, off)
+            if got != want:
+                k = next(k for k in want if got[k] != want[k])
+                ctx.violation(f"[{k}] on '{s}': expected {want[k]}, got {got[k]}", {"input": s, "utc_second": t, "utc_offset_s": off, "expected": want, "got": got,
+                              "python": f"from ahbicht.content_evaluation.fc_evaluators import FcEvaluator as F; print(F.evaluate_{k}(None, {s!r}))"},
+                              key=f"verdict-family:{k}:{want[k]}")
+        try:
+            dt, err = parse_as_datetime(s)
+            parsed = None if dt is None else {"y": dt.year, "m": dt.month, "d": dt.day, "H": dt.hour, "M": dt.minute, "S": dt.second,
+                                                "off": int(dt.utcoffset().total_seconds()), "whole": dt.microsecond == 0 and dt.utcoffset().microseconds == 0}
+        except BaseException as e:  # pylint:disable=broad-except
+            parsed = "raises:" + type(e).__name__
+        iso_rows.append((s, kind, parsed, got))
+    ctx.count("iso_kind", "valid", sum(1 for r in iso_rows if r[1] == "valid"))
+    for kd in ("edge-year", "field", "offset-quirk", "shape"):
+        ctx.count("iso_kind", kd, sum(1 for r in iso_rows if r[1] == kd))
+    if drv:
+        sendable = [r for r in iso_rows if not any(0xD800 <= ord(c) <= 0xDFFF for c in r[0]) and "\n" not in r[0] and "\r" not in r[0]]
+        outs = ctx.driver({"op": "iso", "s": r[0]} for r in sendable)
+        tally = {"ok": 0, "invalid": 0, "unmodelled": 0}
+        n_diff = 0
+        for (s, kind, parsed, got), o in zip(sendable, outs):
+            tally[o.get("r", "?")] = tally.get(o.get("r", "?"), 0) + 1
+            bad = None
+            if o.get("r") == "ok":
+                mf = {k: o[k] for k in ("y", "m", "d", "H", "M", "S", "off")}
+                if not isinstance(parsed, dict) or {k: parsed[k] for k in mf} != mf or not parsed["whole"]:
+                    bad = "the model reads fields the implementation does not"
+                elif 1902 <= mf["y"] <= 9998:  # before pytz's first row (1901-12-13) it uses local mean time, at the edges datetime overflows: not claimed by the model
+                    mv = {"931": o["v931"], "932": o["strom"], "933": o["strom"], "934": o["gas"], "935": o["gas"]}
+                    if mv != got:
+                        bad = "verdicts differ"
+            elif o.get("r") == "invalid":
+                if parsed is not None or any(v is not False for v in got.values()):
+                    bad = "the model says a field is out of range, the implementation accepts or raises"
+            elif o.get("r") == "unmodelled":
+                if kind == "valid":
+                    bad = "a writing of the family is not recognised by the model"
+            else:
+                bad = "driver error: " + json.dumps(o)[:200]
+            if bad:
+                n_diff += 1
+                if n_diff <= 5:
+                    ctx.broke("correspondence", "iso", json.dumps({"input": s, "why": bad, "impl_parsed": parsed, "impl": got, "model": o}, ensure_ascii=False))
+        ctx.coverage.setdefault("correspondence", {})["iso"] = {"lines": len(sendable), "disagreements": n_diff, "model_answers": tally}
     for s, fields, got in rows[:3]:
         ctx.sample({"input": s, "verdicts": got})
     if drv:
@@ -224,8 +383,8 @@ def run(ctx: Ctx) -> None:
                 n_diff += 1
                 if n_diff <= 5:
                     ctx.broke("correspondence", "time93x", json.dumps({"input": s, "fields": f, "impl": got, "model": m}))
-        ctx.coverage["correspondence"] = {"time93x": {"lines": len(rows), "disagreements": n_diff}}
-    ctx.assumptions += ["datetime.fromisoformat's accepted syntax is sampled, not modelled; datetime/pytz arithmetic is observed through the correspondence",
+        ctx.coverage.setdefault("correspondence", {})["time93x"] = {"lines": len(rows), "disagreements": n_diff}
+    ctx.assumptions += ["datetime.fromisoformat is modelled on the extended family YYYY-MM-DD<sep>HH:MM:SS(Z|+-HH:MM|+-HH:MM:SS) (Model/Iso.lean, tied by the `iso` correspondence); other notations it accepts (basic format, +hh, +hhmm, fractions, week dates) are sampled, not modelled; datetime/pytz arithmetic is observed through the correspondence",
                         "fractions of a second are ignored by the code (hour/minute/second are compared); the property speaks of whole-second instants"]
 
 
